@@ -160,7 +160,14 @@ class Src:
     limit: None | int | SymInt - bytes available before the stream ends (symbolic cut).
     """
 
-    def __init__(self, data, limit=None, monitor: ProtocolMonitor | None = None, fail_at=None):
+    def __init__(self, data, limit=None, monitor: ProtocolMonitor | None = None, fail_at=None, cut=False):
+        # cut=True: the stream ends inside exactly one of the read calls: every read of n >= 1
+        # bytes forks once on "this is the read that falls short", and then returns a bytes
+        # with a symbolic a in [0, n-1].  (read index, a) ranges over exactly the strict
+        # prefixes that end before the last byte this decode would have consumed.
+        self.__dict__["cut"] = cut
+        self.__dict__["cut_at"] = None  # consumed + a once the short read happened
+        self.__dict__["ended"] = False
         self.__dict__["items"] = list(SymBytes.of(data).items)
         self.__dict__["i"] = 0
         self.__dict__["consumed"] = 0  # int | SymInt
@@ -201,6 +208,23 @@ class Src:
             need = None  # read everything
         else:
             need = n
+        if self.ended:
+            return b""
+        if self.cut and need is not None:
+            pos = (need > 0)
+            if (pos if type(pos) is bool else bool(pos)):
+                c = ctx()
+                if c.branch(z3.Bool(c.name("short_read"))):
+                    hi = (need.hi if type(need) is SymInt else need) - 1
+                    a, _ = S.sym_var(c.name("short_len"), 0, hi)
+                    if type(need) is SymInt:
+                        c.add(a.e < need.e)
+                    out = self._take(a)
+                    r = SymBytes(out)
+                    self.cut_at = self.consumed + a
+                    self.consumed = self.cut_at
+                    self.ended = True
+                    return S._norm(r)
         if self.limit is not None and need is not None:
             avail = self.limit - self.consumed
             fits = need <= avail
